@@ -98,7 +98,7 @@ func extras(t *rapid.T, n int, label string) []float64 {
 }
 
 func genCase(t *rapid.T) Case {
-	class := rapid.SampledFrom([]string{"near", "near", "near", "near-shared-exp", "near-small-int-dir", "shared", "axis", "random", "random-shared-exp", "grid-big", "filter-edge", "filter-edge"}).Draw(t, "class")
+	class := rapid.SampledFrom([]string{"near", "near", "near", "near-shared-exp", "near-small-int-dir", "shared", "axis", "random", "random-shared-exp", "grid-big", "filter-edge", "filter-edge", "int-bezout", "int-bezout"}).Draw(t, "class")
 	var a, b, c [2]float64
 	shared := 9999
 	if class == "near-shared-exp" || class == "random-shared-exp" {
@@ -192,6 +192,41 @@ func genCase(t *rapid.T) Case {
 		case 2:
 			b, c = c, b
 		}
+	case "int-bezout":
+		// whole numbers of a drawn width (8..52 bits) with a determinant of exactly -2..2: a
+		// direction (dx,dy) of coprime numbers of that width, and (u,v) with dx*v - dy*u = 1
+		// from the extended Euclidean algorithm; c = a + m*(dx,dy) + s*(u,v) is s lattice
+		// steps off the line through a and b = a + (dx,dy). The products of the differences
+		// need twice the width, so that from 27 bits on a float64 determinant rounds.
+		k := uint(rapid.SampledFrom([]int{8, 16, 24, 25, 26, 27, 28, 30, 31, 32, 33, 40, 50, 52}).Draw(t, "bk"))
+		if rapid.Bool().Draw(t, "bkany") {
+			k = uint(rapid.IntRange(4, 52).Draw(t, "bkv"))
+		}
+		lo, hi := int64(1)<<(k-1), int64(1)<<k-1
+		dx, dy := rapid.Int64Range(lo, hi).Draw(t, "bdx"), rapid.Int64Range(lo, hi).Draw(t, "bdy")
+		// extended Euclid: g = gcd(dx,dy) = dx*x + dy*y
+		x0, y0, x1, y1, r0, r1 := int64(1), int64(0), int64(0), int64(1), dx, dy
+		for r1 != 0 {
+			q := r0 / r1
+			r0, r1 = r1, r0-q*r1
+			x0, x1 = x1, x0-q*x1
+			y0, y1 = y1, y0-q*y1
+		}
+		dx, dy = dx/r0, dy/r0 // coprime; dx*x0 + dy*y0 = 1 still holds for the reduced pair
+		u, v := -y0, x0       // dx*v - dy*u = dx*x0 + dy*y0 = 1
+		sdet := int64(rapid.SampledFrom([]int{1, -1, 1, -1, 0, 2, -2}).Draw(t, "bs"))
+		m := int64(rapid.SampledFrom([]int{0, 1, 0, 1, -1, 2}).Draw(t, "bm"))
+		if rapid.Bool().Draw(t, "bneg") {
+			dx, u = -dx, -u
+			sdet = -sdet
+		}
+		ox, oy := rapid.Int64Range(-hi, hi).Draw(t, "box")/2, rapid.Int64Range(-hi, hi).Draw(t, "boy")/2
+		if rapid.Bool().Draw(t, "bcentre") {
+			ox, oy = -dx/2, -dy/2 // the three points around the origin: every ordinate within the width
+		}
+		a = [2]float64{float64(ox), float64(oy)}
+		b = [2]float64{float64(ox + dx), float64(oy + dy)}
+		c = [2]float64{float64(ox + m*dx + sdet*u), float64(oy + m*dy + sdet*v)}
 	case "grid-big":
 		// integer-valued ordinates; widths at the limits of int32 / int64 / float64-mantissa
 		// arithmetic are drawn as often as all other widths together, and every ordinate
